@@ -85,18 +85,25 @@ def judge(prop, verdict, recs, label, drift):
     t0 = time.time()
     with concurrent.futures.ThreadPoolExecutor(max_workers=3) as ex:
         results = list(ex.map(one, range(len(chunks))))
-    nrej = 0
+    nrej, perkey = 0, {}
     for ci, (rejected, st) in enumerate(results):
         bad = set()
         for (ti, li) in rejected[fml]:
             rec = chunks[ci][li - 1]
             bad.add(li)
             nrej += 1
-            rp = vlib.save_replay(prop, "%s_%s.ndjson" % (label, rec["tid"]), [dict(rec, prop=prop)]) if len(verdict.violations) < 25 else "(not saved)"
-            verdict.violation(vkey(rec["e"]), "recorded call %s is not allowed by %s_Step: %s" % (rec["tid"], prop, describe(rec)), rp)
+            k = vkey(rec["e"])
+            perkey[k] = perkey.get(k, 0) + 1
+            if perkey[k] > 2:      # two replay files per kind of violation are enough; the rest is counted
+                continue
+            rp = vlib.save_replay(prop, "%s_%s.ndjson" % (label, rec["tid"]), [dict(rec, prop=prop)])
+            verdict.violation(k, "recorded call %s is not allowed by %s_Step: %s" % (rec["tid"], prop, describe(rec)), rp)
         for (ti, li) in rejected[strict]:
             if li not in bad:
                 drift.append(chunks[ci][li - 1])
+    for k, n in perkey.items():
+        if n > 2:
+            log("[judge] %d recorded calls rejected with key '%s' (2 reported)" % (n, k))
     log("[judge] %s: %d events in %d chunk(s) validated by TLC in %.1fs, %d rejected by %s, %d strict-only" %
         (label, len(steps), len(chunks), time.time() - t0, nrej, fml, len(drift)))
     return len(steps)
